@@ -107,7 +107,7 @@ def wrapRows (e : Engine) (cols : Cols) (rows : List Row) (tag : String) : ProcM
     let idx := s.sq.tables.length
     let name := s!"{tag}{idx}"
     set { s with sq := { s.sq with tables := s.sq.tables ++ [rows] } }
-    return .sql { frm := .table name 0 idx, avail := (cols.map (fun t => (t, SqlExpr.col name t))) }
+    return .sql (tablePayload name 0 idx cols)
 
 def hookTransfer (σ : Leaves) (source : Rel) (dest : Engine) (matAs : Option String) : ProcM AnyPayload := do
   modify (fun s => { s with hooks := s.hooks ++
